@@ -13,7 +13,7 @@ pub fn presence_values(ctx: &Ctx, e: &Entry) -> Vec<Value> {
     let nroot = ext_after.unwrap_or(comps.len());
     let mut doms: Vec<Vec<Option<Value>>> = vec![];
     for (i, c) in comps.iter().enumerate() {
-        let mut val = (i + 1) as i128;
+        let mut val = if comps.len() > 8 { (i % 7 + 1) as i128 } else { (i + 1) as i128 };
         let is_default = matches!(c.presence, Presence::Default(_));
         if is_default && val == 5 {
             val = 6;
@@ -35,6 +35,10 @@ fn sample_value(m: &Module, ty: &Ty, val: i128) -> Value {
         Ty::Int { .. } => Value::Int(val),
         Ty::Bool => Value::Bool(val % 2 == 1),
         Ty::Seq { comps, .. } => Value::Seq(comps.iter().map(|c| Some(sample_value(m, &c.ty, val))).collect()),
+        Ty::Choice { alts, .. } => {
+            let i = (val as usize) % alts.len();
+            Value::Choice(i, Box::new(sample_value(m, &alts[i].ty, val)))
+        }
         other => panic!("C03 shapes: no sample value for {}", other.asn()),
     }
 }
